@@ -1,11 +1,80 @@
-/- Oracle operations, group Address (see /verif/CONVENTIONS.md). -/
+/- Oracle operations, group Address (C09). Strings travel as the hex of their bytes; the network is
+   named `btc | tbtc | ltc | zec`, the format by the library's constant (`P2PKH` …, anything else is
+   an unknown format). -/
 import BtcVerif.Oracle.Util
+import BtcVerif.Model.Address
+import BtcVerif.Spec.Address
+import BtcVerif.Prim.SHA256
+import BtcVerif.Prim.RIPEMD160
 
 namespace BtcVerif.Oracle
-open BtcVerif
+open BtcVerif BtcVerif.Model.Address
+
+def primHashes : Hashes :=
+  { hash160 := Prim.hash160, sha256 := Prim.sha256, cksum := fun x => (Prim.dsha256 x).take 4 }
+
+def netOfName : String → Option Network
+  | "btc" => some bitcoin
+  | "tbtc" => some testnet
+  | "ltc" => some litecoin
+  | "zec" => some zcash
+  | _ => none
+
+def specNetOfName : String → Option Spec.Address.Net
+  | "btc" => some Spec.Address.bitcoin
+  | "tbtc" => some Spec.Address.testnet
+  | "ltc" => some Spec.Address.litecoin
+  | "zec" => some Spec.Address.zcash
+  | _ => none
+
+def fmtOfName : String → Format
+  | "P2PKH" => .p2pkh
+  | "P2SH" => .p2sh
+  | "P2WPKH" => .p2wpkh
+  | "P2WSH" => .p2wsh
+  | _ => .other
+
+def fmtName : Format → String
+  | .p2pkh => "P2PKH"
+  | .p2sh => "P2SH"
+  | .p2wpkh => "P2WPKH"
+  | .p2wsh => "P2WSH"
+  | .other => "NONSTANDARD"
+
+def specKindOfName : String → Option Spec.Address.Kind
+  | "P2PKH" => some .p2pkh
+  | "P2SH" => some .p2sh
+  | "P2WPKH" => some .p2wpkh
+  | "P2WSH" => some .p2wsh
+  | _ => none
 
 def opAddress (op : String) (args : List String) : Option String :=
   match op, args with
+  | "addr.make", [n, f, d] => do
+    let net ← netOfName n
+    let d ← parseHex d
+    some (outcomeStr hexOf (make primHashes net (fmtOfName f) d))
+  | "addr.makehash", [n, f, h] => do
+    let net ← netOfName n
+    let h ← parseHex h
+    some (outcomeStr hexOf (makeFromHash primHashes net (fmtOfName f) h))
+  | "addr.ref", [n, f, h] => do
+    let net ← specNetOfName n
+    let k ← specKindOfName f
+    let h ← parseHex h
+    some (match Spec.Address.addressOfHash primHashes.cksum net k h with
+      | some s => "ok " ++ hexOf s
+      | none => "err")
+  | "addr.dec", [n, s] => do
+    let net ← netOfName n
+    let s ← parseHex s
+    some (outcomeStr (fun r => s!"{fmtName r.1} {hexOf r.2}") (decode primHashes net s))
+  | "addr.dec58", [s] => do
+    let s ← parseHex s
+    some (outcomeStr (fun r => s!"{r.1} {hexOf r.2}") (decodeBase58Address primHashes s))
+  | "addr.decbech", [s] => do
+    let s ← parseHex s
+    some (outcomeStr (fun r => s!"{hexOf r.1} {r.2.1} {hexOf r.2.2}") (decodeBech32Address s))
   | _, _ => none
 
 end BtcVerif.Oracle
